@@ -18,6 +18,7 @@ mod c12;
 mod stats;
 mod hashers;
 mod sizes;
+mod types;
 use util::*;
 
 fn main() {
@@ -92,10 +93,10 @@ fn main() {
                 "C18" => { hashers::corr(&mut ctx, "sha"); c18::corr(&mut ctx) }
                 "C14" => c14::corr(&mut ctx),
                 "C20" => c20::corr(&mut ctx),
-                "C02" => { sizes::corr(&mut ctx, "pmh"); c13::corr(&mut ctx); hashers::corr(&mut ctx, "fnv"); hashers::corr(&mut ctx, "sha"); c02::corr(&mut ctx) }
-                "C01" => { sizes::corr(&mut ctx, "pmh"); c13::corr(&mut ctx); hashers::corr(&mut ctx, "fnv"); hashers::corr(&mut ctx, "sha"); c02::corr_opts(&mut ctx, false); stats::pmh_statistics(&mut ctx); }
+                "C02" => { types::corr_keys(&mut ctx); sizes::corr(&mut ctx, "pmh"); c13::corr(&mut ctx); hashers::corr(&mut ctx, "fnv"); hashers::corr(&mut ctx, "sha"); c02::corr(&mut ctx) }
+                "C01" => { types::corr_keys(&mut ctx); sizes::corr(&mut ctx, "pmh"); c13::corr(&mut ctx); hashers::corr(&mut ctx, "fnv"); hashers::corr(&mut ctx, "sha"); c02::corr_opts(&mut ctx, false); stats::pmh_statistics(&mut ctx); }
                 "C04" => {
-                    sizes::corr(&mut ctx, "smh"); sizes::corr(&mut ctx, "ssk"); sizes::corr(&mut ctx, "dens"); c13::corr(&mut ctx);
+                    sizes::corr(&mut ctx, "smh"); sizes::corr(&mut ctx, "ssk"); sizes::corr(&mut ctx, "dens"); c13::corr(&mut ctx); types::corr_items(&mut ctx);
                     hashers::corr(&mut ctx, "fnv");
                     c04::corr_smh(&mut ctx);
                     ssk::corr_sets(&mut ctx);
